@@ -27,6 +27,9 @@ TEXT = {
     "C09": "every file-system primitive of the fully inlined store / tag / delete / metadata calls is checked against the step invariant: permanent files only appear by rename of a closed temporary file with complete content, disappear by rename-away or remove, and are never opened for writing",
     "C10": "after every primitive of the fully inlined calls the frame over all other pids and the completeness of permanent files are proved; recovery (delete_object then store) is a lemma over the contracts from every partial reference condition without residue",
     "C13": "the real bodies are re-run with one injected OSError at each primitive in turn (one-off and persistent): success only with the whole effect, a failed store/tag leaves the pid unbound or as before, a failed store_metadata keeps the previous version, other pids untouched; one known finding (persistent read fault defeats the roll-back)",
+    "C07": "lock discipline on the real bodies: acquired key is the waited key, release only what is held, every write of an object / cid list / pid reference happens under its lock (per primitive, from the inlined calls), one guard per location class, no write after releasing the lock a location was read under, coverage not reduced against the committed baseline; schedules are not enumerated; two known findings, replayed with a one-preemption driver",
+    "C16": "both flavours of every synchronised function are proved against one flavour-independent contract (same outcome, file-system effect and lock multisets), and the constructor is proved to create exactly the attributes of the selected flavour; real forked processes are not run",
+    "C20": "main() is executed symbolically over a symbolic argparse namespace derived from the real add_argument calls; each verb makes exactly the documented API call with the option values bound to the documented parameters and with the types the API contracts require; the store is opened with its recorded configuration",
     "C14": "constructor and configuration functions proved against an outcome-complete contract: accepted iff the supplied configuration equals the recorded one, refused calls create and modify nothing",
     "C15": "_shard proved against the README layout (tokens, remainder, concatenation) from its real comprehension; path builders, reference-file formats and YAML key set proved against the published layout",
 }
@@ -42,6 +45,9 @@ REASONS = {
     "C09": "every file-system primitive of the fully inlined store / tag / delete / metadata calls is checked against the step invariant: permanent files only appear by rename of a closed temporary file with complete content, disappear by rename-away or remove, and are never opened for writing",
     "C10": "after every primitive of the fully inlined calls the frame over all other pids and the completeness of permanent files are proved; recovery (delete_object then store) is a lemma over the contracts from every partial reference condition without residue",
     "C13": "the real bodies are re-run with one injected OSError at each primitive in turn (one-off and persistent): success only with the whole effect, a failed store/tag leaves the pid unbound or as before, a failed store_metadata keeps the previous version, other pids untouched; one known finding (persistent read fault defeats the roll-back)",
+    "C07": "lock discipline on the real bodies: acquired key is the waited key, release only what is held, every write of an object / cid list / pid reference happens under its lock (per primitive, from the inlined calls), one guard per location class, no write after releasing the lock a location was read under, coverage not reduced against the committed baseline; schedules are not enumerated; two known findings, replayed with a one-preemption driver",
+    "C16": "both flavours of every synchronised function are proved against one flavour-independent contract (same outcome, file-system effect and lock multisets), and the constructor is proved to create exactly the attributes of the selected flavour; real forked processes are not run",
+    "C20": "main() is executed symbolically over a symbolic argparse namespace derived from the real add_argument calls; each verb makes exactly the documented API call with the option values bound to the documented parameters and with the types the API contracts require; the store is opened with its recorded configuration",
     "C14": "constructor contracts written; property table entry not finished",
     "C15": "shard proof not built yet",
     "C16": "mode-relation check not built yet",
